@@ -1200,6 +1200,21 @@ func (k *Kernel) checkVotingPrecommitViewShift(ctx context.Context, s *kState) e
 		))
 	}
 
+	if s.Committing.Height > 0 && !bytes.Equal(votedHeader.PrevBlockHash, s.CommittingHeader.Hash) {
+		// Proposed and replayed headers are checked against the committing block on arrival,
+		// but a header can also reach the view through the proposed header fetcher
+		// after the votes for its hash. Never extend the chain with a header
+		// that does not build on the block we are committing.
+		k.log.Warn(
+			"Refusing to commit header that does not build on the committing block",
+			"height", vrv.Height, "round", vrv.Round,
+			"block_hash", glog.Hex(committingHash),
+			"prev_block_hash", glog.Hex(votedHeader.PrevBlockHash),
+			"committing_hash", glog.Hex(s.CommittingHeader.Hash),
+		)
+		return nil
+	}
+
 	// TODO: gassert: verify incoming validator set's hashes.
 	nextValSet := votedHeader.NextValidatorSet
 	s.ShiftVotingToCommitting(nextHeightDetails{
